@@ -82,6 +82,18 @@ def lastSep (p : CStr) : Option Nat := lastSepAux p 0 none
 
 /-! ## join -/
 
+/-- second half of `muggle_path_join` (from `const char *p = path2;` on): `ret` holds `path1`
+and possibly the added `/`; `pos`, `len1`, `maxLen` as in the C code -/
+def pathJoinTail (p2 : CStr) (b : Buf) (pos len1 maxLen : Nat) : Except Err (Bool × Buf) := do
+  let (p, len2, bad) :=
+    if p2.head? = some 47 then (p2.tail, p2.length - 1, decide (p2.length = 1))
+    else (p2, p2.length, false)
+  if bad then return (false, b)
+  if len1 + len2 > maxLen then return (false, b)
+  let b ← strncpy b pos p len2
+  let b ← b.write (len1 + len2) 0
+  return (true, b)
+
 /-- `muggle_path_join`; result `(true, buf)` = MUGGLE_OK -/
 def pathJoin (fx : Bool) (p1 p2 : CStr) (b : Buf) : Except Err (Bool × Buf) := do
   let size := b.size
@@ -98,23 +110,12 @@ def pathJoin (fx : Bool) (p1 p2 : CStr) (b : Buf) : Except Err (Bool × Buf) := 
     let c ← b.read (n - 1)
     pure (isSep c))
   let pos := p1.length
-  let r ← (if !endsSep then
-      (if pos ≥ size then pure none
-       else do
-        let b ← b.write pos 47
-        pure (some (b, pos + 1, p1.length + 1)))
-    else pure (some (b, pos, p1.length)))
-  match r with
-  | none => return (false, b)
-  | some (b, pos, len1) =>
-  let (p, len2, bad) :=
-    if p2.head? = some 47 then (p2.tail, p2.length - 1, decide (p2.length = 1))
-    else (p2, p2.length, false)
-  if bad then return (false, b)
-  if len1 + len2 > maxLen then return (false, b)
-  let b ← strncpy b pos p len2
-  let b ← b.write (len1 + len2) 0
-  return (true, b)
+  if !endsSep then
+    if pos ≥ size then return (false, b)
+    let b ← b.write pos 47
+    pathJoinTail p2 b (pos + 1) (p1.length + 1) maxLen
+  else
+    pathJoinTail p2 b pos p1.length maxLen
 
 /-! ## basename / dirname -/
 
